@@ -26,9 +26,10 @@ namespace rkcommon {
                      size_t size);
 
      private:
-      // The underlying array from the fixed array being viewed, to keep
-      // the data alive for the view's lifetime
-      std::shared_ptr<FixedArray<T>> data;
+      // The underlying buffer of the fixed array being viewed, to keep
+      // the data alive for the view's lifetime (holding on to the FixedArray
+      // object is not enough: assigning to it replaces its buffer)
+      std::shared_ptr<T> array;
     };
 
     // Inlined FixedArrayView definitions
@@ -37,9 +38,9 @@ namespace rkcommon {
     FixedArrayView<T>::FixedArrayView(std::shared_ptr<FixedArray<T>> &_data,
                                       size_t offset,
                                       size_t size)
-        : data(_data)
+        : array(_data->array)
     {
-      AbstractArray<T>::setPtr(data->begin() + offset, size);
+      AbstractArray<T>::setPtr(array.get() + offset, size);
     }
 
   }  // namespace utility
